@@ -797,12 +797,12 @@ func TestCheck(t *testing.T) {
 		return
 	}
 	// host pattern family: request hosts derived from the configured patterns (hosts_test.go)
-	if !runHostFamily(r) {
+	if !runHostFamily(r, deadline) {
 		r.Finish()
 		return
 	}
 	// method list family: every ordered pair of consecutive requests on one boot (methods_test.go)
-	if !runMethodFamily(r, ip) {
+	if !runMethodFamily(r, ip, deadline) {
 		r.Finish()
 		return
 	}
@@ -969,11 +969,23 @@ func TestCheck(t *testing.T) {
 		"composition family: named matchers @S (1, 2, 3, 5 values), @X, @Y of one kind in {host, method, header_exists, query_exists, remote_ip}; every ordered tuple of 1..2 (thorough 1..3) "+
 		"routes /r0../r2 over the forms {@S@X, @S@Y, @X@S, @Y@S, @S, inline same kind + @S@X, inline other kind + @S@Y}; requests over every route path x every value of @S/@X/@Y/inline/non-member "+
 		"(presence sets for *_exists) x methods. "+
+		"host pattern family: patterns {exact d, *.d} over the domains {d, partner.example, b.partner.example, example, xn--bcher-kva.example}, *, and mixed-case spellings; every host list of 1..2 "+
+		"(thorough 1..3) distinct patterns in every order x route forms {only route, restricted route in front of an open one, method-restricted route (404 vs 405)}; request Hosts derived from EVERY "+
+		"pattern domain: the domain, 1- and 2-level sub-domains, parent, sibling, glued names without a dot boundary (evil+d, not-a-+d, x_+d, xn--+d, UTF-8 byte+d), d as prefix / glued prefix / infix, "+
+		"punycode and UTF-8 sub-domain labels, each spelled plain / upper case / trailing dot / :port / upper+port / dot+port, plus no Host and an IPv6 literal; label-wise reference. "+
+		"method list family: /api with the first K=0..7 of 7 methods (inline, named matcher, split), /api/orders (4 method variants), /api/orders/x, /api/users (3 variants, optional host) in 3 orders "+
+		"(quick: 2 variants per child); on one boot a walk through the request alphabet path(6) x method(6..7) x host(1..2) in which every ordered pair of requests occurs as consecutive requests; "+
+		"every response compared with the stateless reference. Side pass (race_test.go, -race build): the same method family, one 3-route configuration per match shape and the host lists, "+
+		"served by 8 overlapping goroutines in phases 405-only / 404-only / 202-only / mixed; only the race detector judges. "+
 		"distinct_nontrivial counts (match shape, observed request value, reference verdict) classes, (route path, request path, verdict) classes and "+
 		"(channel tuple, winner position, status) classes reached by the reference")
 	r.Assume("encoded slashes (%2F) and other percent-encoded path bytes are not in the alphabet (documentation does not define them)")
 	r.Assume("request methods are upper case; route auth, rate limits and adaptive backpressure are off (C08/C12 cover them), so a resolved request always ends in 202")
 	r.Assume("a pull route stores target \"pull\" (DESIGN.md Admin API example), a deliver route stores its deliver URL")
+	r.Assume("overlapping requests are decided by the free-running -race side pass only (a data race is reported; an unsynchronised sharing that the detector does not flag within its budget, " +
+		"or a wrong answer under overlap that is not a data race, is not covered); request sequences are covered to the depth of all ordered pairs of consecutive requests of the method list family")
+	r.Assume("host family: raw UTF-8 and underscore labels are sent as they are (net/http's server would reject some of them before the handler; the resolver must still not match them to a foreign pattern); " +
+		"a Host with an empty label in front of the domain (\".d\") and patterns written with a port or a trailing dot are not in the alphabet (undefined by the docs)")
 	r.Assume("405 needs an inbound route whose criteria other than the method all hold; Allow is compared as a set with the union of the methods of those routes (POST when none)")
 	r.Finish()
 }
